@@ -38,7 +38,19 @@ ExprsOfSize(n) ==
   IF n = 1 THEN Leaves
   ELSE { MkUn(op, x) : op \in Unary, x \in ExprsOfSize(n - 1) }
        \cup UNION { { [t |-> op, a |-> x, b |-> y] : op \in {"seq", "alt"}, x \in ExprsOfSize(i), y \in ExprsOfSize(n - 1 - i) } : i \in 1..(n - 2) }
-Exprs == UNION { ExprsOfSize(n) : n \in 1..MaxSize }
+\* shapes beyond MaxSize in which grouping matters: same and mixed binary operators nested to the left and to the
+\* right (parentheses that must be kept when the operators are equal), unary operators over binary ones, binary
+\* operators over unary ones
+L3 == { S(<<97>>), Id("r1", <<114, 49>>), S(<<>>) }
+U3 == {"opt", "not", "exact2", "rep1"}
+Bin(o, x, y) == [t |-> o, a |-> x, b |-> y]
+Shapes ==
+  UNION { { Bin(o1, x, Bin(o2, y, z)), Bin(o1, Bin(o2, x, y), z) } : o1 \in {"seq", "alt"}, o2 \in {"seq", "alt"}, x \in L3, y \in L3, z \in L3 }
+  \cup { MkUn(op, Bin(o, x, y)) : op \in Unary, o \in {"seq", "alt"}, x \in L3, y \in L3 }
+  \cup { Bin(o, MkUn(p, x), MkUn(q, y)) : o \in {"seq", "alt"}, p \in U3, q \in U3, x \in L3, y \in L3 }
+  \cup { Bin(o, x, Bin(o, y, Bin(o, z, x))) : o \in {"seq", "alt"}, x \in L3, y \in L3, z \in L3 }
+  \cup { Bin(o, Bin(o, x, Bin(o, y, z)), x) : o \in {"seq", "alt"}, x \in L3, y \in L3, z \in L3 }
+Exprs == UNION { ExprsOfSize(n) : n \in 1..MaxSize } \cup Shapes
 
 \* the expression in the exchange format of the harness (what rules_json exports of the real AST)
 RECURSIVE Ast(_)
